@@ -2,6 +2,7 @@ CONSTANTS PayFull = {0, 5}
   PayEdge = {5}
   Pads = {0, 7}
   CutMode = "all"
+  DeepSizes = {160}
 INIT Init
 NEXT Next
 INVARIANT TypeOK
